@@ -146,6 +146,13 @@ def simOp (st : SimSt) (ws : List String) : SimSt × List String :=
       | some (.ok (some ms, s')) => simObs st s!"Ok{showMsgs ms}" s'
       | some (.ok (none, s')) => simObs st "Err" s'
       | _ => fail st
+  | ["until_local_timeout", p, d] =>
+    match amGet? (name! p) s.procNodes with
+    | none => fail st
+    | some n => match Sim.stepUntilLocalTimeout h n (name! p) (fOf d) bigFuel s with
+      | some (.ok (some ms, s')) => simObs st s!"Ok{showMsgs ms}" s'
+      | some (.ok (none, s')) => simObs st "Err" s'
+      | _ => fail st
   | ["until_local_max", p, k] =>
     match amGet? (name! p) s.procNodes with
     | none => fail st
